@@ -11,7 +11,7 @@ variable {δ γ : Type}
 (as the wrapped distribution's parameters), and the interval is non-empty -/
 structure Tracks (D : StdDist Int δ) (s : ObjsF δ) (b : Bnds) : Prop where
   dist : ∀ i, b.dist i = (s.dist i).map (fun d => D.param d.dist)
-  var : ∀ k, b.var k = (s.var k).map (fun v => D.param v.distribution.dist)
+  var : ∀ k, b.var k = (s.var k).map (fun v => D.param v.1.distribution.dist)
   distLe : ∀ i q, b.dist i = some q → q.1 ≤ q.2
   varLe : ∀ k q, b.var k = some q → q.1 ≤ q.2
 
@@ -29,8 +29,8 @@ theorem Tracks.setDist {D : StdDist Int δ} {s : ObjsF δ} {b : Bnds} (h : Track
     · subst hn; simp only [upd_same, Option.some.injEq] at hq'; subst hq'; exact hle
     · simp only [upd_other _ _ _ _ hn] at hq'; exact h.distLe n q' hq'
 
-theorem Tracks.setVar {D : StdDist Int δ} {s : ObjsF δ} {b : Bnds} (h : Tracks D s b) (k : Nat) (v : Variate δ)
-    (q : Int × Int) (hq : D.param v.distribution.dist = q) (hle : q.1 ≤ q.2) :
+theorem Tracks.setVar {D : StdDist Int δ} {s : ObjsF δ} {b : Bnds} (h : Tracks D s b) (k : Nat) (v : Variate δ × Bool)
+    (q : Int × Int) (hq : D.param v.1.distribution.dist = q) (hle : q.1 ≤ q.2) :
     Tracks D { s with var := upd s.var k (some v) } { b with var := upd b.var k (some q) } := by
   refine ⟨h.dist, fun n => ?_, h.distLe, fun n q' hq' => ?_⟩
   · by_cases hn : n = k
@@ -46,15 +46,15 @@ theorem Tracks.distOf {D : StdDist Int δ} {s : ObjsF δ} {b : Bnds} (h : Tracks
   rw [hd] at this
   exact ⟨this, h.distLe i _ this⟩
 
-theorem Tracks.varOf {D : StdDist Int δ} {s : ObjsF δ} {b : Bnds} (h : Tracks D s b) {k : Nat} {v : Variate δ}
+theorem Tracks.varOf {D : StdDist Int δ} {s : ObjsF δ} {b : Bnds} (h : Tracks D s b) {k : Nat} {v : Variate δ × Bool}
     (hv : s.var k = some v) :
-    b.var k = some (D.param v.distribution.dist) ∧ (D.param v.distribution.dist).1 ≤ (D.param v.distribution.dist).2 := by
+    b.var k = some (D.param v.1.distribution.dist) ∧ (D.param v.1.distribution.dist).1 ≤ (D.param v.1.distribution.dist).2 := by
   have := h.var k
   rw [hv] at this
   exact ⟨this, h.varLe k _ this⟩
 
 theorem stepF_within {D : StdDist Int δ} (hU : D.UniformInt) (out : δ → String) (ty : Ty) (G : Gen γ)
-    (a : Act Int) (s : ObjsF δ) (g : γ) (b : Bnds) (r : List (Ev (DVal Int) Int) × ObjsF δ × γ)
+    (a : Act Int) (s : ObjsF δ) (g : γ × γ) (b : Bnds) (r : List (Ev (DVal Int) Int) × ObjsF δ × (γ × γ))
     (hr : stepF D out ty G a s g = .ok r) (ht : Tracks D s b) (hv : ActValid a) :
     EvsWithin r.1 (boundsStep a b).1 ∧ Tracks D r.2.1 (boundsStep a b).2 := by
   cases a with
@@ -92,7 +92,7 @@ theorem stepF_within {D : StdDist Int δ} (hU : D.UniformInt) (out : δ → Stri
         obtain ⟨hbj, hlej⟩ := ht.distOf hj
         simp only [boundsStep, hbi, hbj]
         exact ⟨trivial, (ht.setDist i dj _ rfl hlej).setDist j di _ rfl hlei⟩
-  | draw i =>
+  | draw i w =>
     simp only [stepF] at hr
     cases hi : s.dist i with
     | none => rw [hi] at hr; simp at hr
@@ -100,12 +100,12 @@ theorem stepF_within {D : StdDist Int δ} (hU : D.UniformInt) (out : δ → Stri
       rw [hi] at hr
       simp only [Except.ok.injEq] at hr; subst hr
       obtain ⟨hb, hle⟩ := ht.distOf hi
-      have hm := hU.draw_mem G d.dist g hle
-      have hp := hU.toLawful.param_draw G d.dist g
+      have hm := hU.draw_mem G d.dist (pick w g) hle
+      have hp := hU.toLawful.param_draw G d.dist (pick w g)
       simp only [boundsStep, hb]
       refine ⟨⟨?_, trivial⟩, ?_⟩
       · simpa [Basic.draw, Basic.makeResult, undecorate_decorate'] using hm
-      · have := ht.setDist i (Basic.draw D ty G d g).2.1 (D.param d.dist) (by simp [Basic.draw, hp]) hle
+      · have := ht.setDist i (Basic.draw D ty G d (pick w g)).2.1 (D.param d.dist) (by simp [Basic.draw, hp]) hle
         have hbb : ({ b with dist := upd b.dist i (some (D.param d.dist)) } : Bnds) = b := by
           cases b with
           | mk bd bv =>
@@ -165,7 +165,7 @@ theorem stepF_within {D : StdDist Int δ} (hU : D.UniformInt) (out : δ → Stri
       simp only [boundsStep, hb]
       exact ⟨⟨⟨rfl, by simp [Basic.min, Basic.makeResult, undecorate_decorate', hU.min_eq],
         by simp [Basic.max, Basic.makeResult, undecorate_decorate', hU.max_eq]⟩, trivial⟩, ht⟩
-  | varD k i =>
+  | varD k i w =>
     simp only [stepF] at hr
     cases hi : s.dist i with
     | none => rw [hi] at hr; simp at hr
@@ -174,8 +174,8 @@ theorem stepF_within {D : StdDist Int δ} (hU : D.UniformInt) (out : δ → Stri
       simp only [Except.ok.injEq] at hr; subst hr
       obtain ⟨hb, hle⟩ := ht.distOf hi
       simp only [boundsStep, hb]
-      exact ⟨trivial, ht.setVar k (Variate.ctor d) _ rfl hle⟩
-  | varP k p =>
+      exact ⟨trivial, ht.setVar k (Variate.ctor d, w) _ rfl hle⟩
+  | varP k p w =>
     simp only [stepF, Except.ok.injEq] at hr; subst hr
     exact ⟨trivial, ht.setVar k _ _ (by simp [Variate.ctorParam, Basic.ctor, Param2.convertFrom, pq, hU.toLawful.param_ofParam]) hv⟩
   | varCopy k l assign =>
@@ -200,14 +200,14 @@ theorem stepF_within {D : StdDist Int δ} (hU : D.UniformInt) (out : δ → Stri
       rw [hk] at hr
       simp only [Except.ok.injEq] at hr; subst hr
       obtain ⟨hb, hle⟩ := ht.varOf hk
-      have hm := hU.draw_mem G v.distribution.dist g hle
-      have hp := hU.toLawful.param_draw G v.distribution.dist g
+      have hm := hU.draw_mem G v.1.distribution.dist (pick v.2 g) hle
+      have hp := hU.toLawful.param_draw G v.1.distribution.dist (pick v.2 g)
       simp only [boundsStep, hb]
       refine ⟨⟨?_, trivial⟩, ?_⟩
       · simpa [Variate.draw, Basic.draw, Basic.makeResult, undecorate_decorate'] using hm
-      · have := ht.setVar k (Variate.draw D ty G v g).2.1 (D.param v.distribution.dist)
+      · have := ht.setVar k ((Variate.draw D ty G v.1 (pick v.2 g)).2.1, v.2) (D.param v.1.distribution.dist)
           (by simp [Variate.draw, Basic.draw, hp]) hle
-        have hbb : ({ b with var := upd b.var k (some (D.param v.distribution.dist)) } : Bnds) = b := by
+        have hbb : ({ b with var := upd b.var k (some (D.param v.1.distribution.dist)) } : Bnds) = b := by
           cases b with
           | mk bd bv =>
             simp only [Bnds.mk.injEq, true_and]
@@ -217,7 +217,7 @@ theorem stepF_within {D : StdDist Int δ} (hU : D.UniformInt) (out : δ → Stri
             · simp [upd_other _ _ _ _ hn]
         rw [hbb] at this
         exact this
-  | raw =>
+  | raw w =>
     simp only [stepF, Except.ok.injEq] at hr; subst hr
     exact ⟨trivial, ht⟩
 
@@ -233,7 +233,7 @@ theorem EvsWithin.append : ∀ (e1 : List (Ev (DVal Int) Int)) (q1 : List (Optio
       | exact EvsWithin.append es qs e2 q2 h1 h2
 
 theorem runScriptF_within {D : StdDist Int δ} (hU : D.UniformInt) (out : δ → String) (ty : Ty) (G : Gen γ) :
-    ∀ (acts : List (Act Int)) (s : ObjsF δ) (g : γ) (b : Bnds) (r : List (Ev (DVal Int) Int) × ObjsF δ × γ),
+    ∀ (acts : List (Act Int)) (s : ObjsF δ) (g : γ × γ) (b : Bnds) (r : List (Ev (DVal Int) Int) × ObjsF δ × (γ × γ)),
       runScriptF D out ty G acts s g = .ok r → Tracks D s b → (∀ a ∈ acts, ActValid a) →
       EvsWithin r.1 (boundsScript acts b) ∧ Tracks D r.2.1 (acts.foldl (fun b a => (boundsStep a b).2) b) := by
   intro acts
